@@ -324,6 +324,7 @@ BW_MidiSequencer::BW_MidiSequencer() :
     m_loop.reset();
     m_loop.invalidLoop = false;
     m_time.init();
+    std::memset(m_channelDisable, 0, sizeof(m_channelDisable));
 }
 
 BW_MidiSequencer::~BW_MidiSequencer()
